@@ -244,6 +244,15 @@ impl IncreasingNonceGenerator {
     }
 }
 
+#[cfg(feature = "verif-hooks")]
+impl IncreasingNonceGenerator {
+    /// verification hook: a generator whose last handed-out nonce was `nonce` (to reach carries far up the counter
+    /// without 2^32 and more calls); no production code calls this
+    pub fn verif_at(nonce: [u8; 12]) -> Self {
+        Self { nonce }
+    }
+}
+
 #[cfg(test)]
 mod test {
     use base64ct::Encoding;
